@@ -21,7 +21,7 @@ FAM['CB1'] = Schema('CB1', [Opt('int', 'a', '', 5, 'pv'), Opt('int', 'l', 'L', [
                             Opt('sec', 's', 'M', sub=[Opt('int', 'x', '', 1, 'pv')], cbs='v'),
                             Opt('sec', 't', '', sub=[Opt('int', 'y', '', 1, 'v')], cbs='v'), Opt('func', 'fn', '', None, 'u')])
 USE = ['F01', 'F03', 'F05', 'F06', 'F07', 'F08', 'F09', 'F11', 'F13', 'F15', 'F16']
-SEPS = [b'\n', b'\n\n', b' # c\n', b' // c\n', b' /* c */ ', b' /* a\nb */ ', b' /* a *\n * b\n */ ', b'\r\n', b' # c\r\n\r\n']
+SEPS = [b'\n', b'\n\n', b' # c\n', b' // c\n', b' /* c */ ', b' /* a\nb */ ', b' /* a *\n * b\n */ ', b'\r\n', b' # c\r\n\r\n', b' #\n', b' /**/ ']      # the last two: comments with nothing in them
 # CR LF line ends: the statement counts "every newline once"; what a carriage return between tokens is otherwise is not said anywhere,
 # and the scanner drops it like a blank - the reference scanner does the same here so that the line count can be compared
 import reflex
@@ -189,7 +189,7 @@ def shard_layout(shard):
                 one = range(len(SEPS)) if N <= 4 or QUICK_FULL_SEPS else range(7)      # quick tier: the CR LF separators at N <= 4, the LF-based ones deeper
                 combos = [((p, s),) for p in range(k + 1) for s in one]
             else:
-                two = range(7)        # pairs of deviations: the seven LF-based separators (the CR LF ones are covered singly)
+                two = range(7) if QUICK_FULL_SEPS else (0, 1, 2, 4, 5)        # pairs of deviations: LF-based separators (quick: five of them); the others are covered singly
                 combos = [((p, s), (q, t)) for p in range(k + 1) for q in range(p + 1, k + 1) for s in two for t in two]
             for combo in combos:
                 seps = [b' '] * (k + 1)
